@@ -9,6 +9,8 @@ import (
 	"go/types"
 	"sort"
 	"strings"
+
+	"golang.org/x/tools/go/ssa"
 )
 
 type Obligation struct {
@@ -47,10 +49,11 @@ type VC struct {
 	notes    []string
 	imprecise map[string]bool
 	inputs   []string // names of input terms worth printing from a model
+	calledByContract map[*ssa.Function]bool
 }
 
 func newVC(eng *Engine, fn string) *VC {
-	vc := &VC{eng: eng, fnName: fn, declared: map[string]string{}, siteCnt: map[string]int{}, strConst: map[string]int{}, imprecise: map[string]bool{}}
+	vc := &VC{eng: eng, fnName: fn, declared: map[string]string{}, siteCnt: map[string]int{}, strConst: map[string]int{}, imprecise: map[string]bool{}, calledByContract: map[*ssa.Function]bool{}}
 	return vc
 }
 
